@@ -43,3 +43,14 @@ func Truncate(path string, capacity int64, f *os.File) error {
 	}
 	return nil
 }
+
+// syncDir makes the entries of a directory (creations and removals of files
+// in it) durable.
+func syncDir(dir string) error {
+	d, err := os.Open(dir)
+	if err != nil {
+		return err
+	}
+	defer d.Close()
+	return d.Sync()
+}
